@@ -37,6 +37,11 @@ func unitPolicy(args []string, out *bufio.Writer) {
 		if weighted {
 			max = uint64(5 + r.intn(60))
 		}
+		// one weighted script in six works near the limits of the number types: weights up to MaxUint32, maxima around 2^32
+		huge := weighted && i%6 == 5
+		if huge {
+			max = pick(r, []uint64{1<<32 - 1, 1 << 32, 1<<33 + 5, 3 * (1<<32 - 1), 1 << 40})
+		}
 		nkeys := 3 + r.intn(40)
 		fmt.Fprintf(out, "new weighted=%v\n", weighted)
 		nextID := 1
@@ -85,6 +90,9 @@ func unitPolicy(args []string, out *bufio.Writer) {
 			if !weighted {
 				return 1
 			}
+			if huge {
+				return uint32(pick(r, []uint64{0, 1, 1 << 31, 1<<32 - 1, 1<<32 - 2, 1 << 30, (max - 1) & (1<<32 - 1)}))
+			}
 			return uint32(pick(r, []uint64{0, 1, 1, 2, 3, 5, max - 1, max, max + 1}))
 		}
 		v.SetMaximum(max)
@@ -132,7 +140,14 @@ func unitPolicy(args []string, out *bufio.Writer) {
 				delete(cur, k)
 				emit(fmt.Sprintf("delete %d", id))
 			case r.chance(0.05):
-				m := uint64(r.intn(int(max) * 2))
+				base := int(max % (1 << 40))
+				if base == 0 {
+					base = 1
+				}
+				m := uint64(r.intn(base * 2))
+				if huge {
+					m = pick(r, []uint64{0, 1<<32 - 1, 1 << 32, 1<<32 + 1, 1 << 33, 1 << 31, max})
+				}
 				v.SetMaximum(m)
 				emit(fmt.Sprintf("setmax %d", m))
 			case r.chance(0.5):
